@@ -30,7 +30,7 @@ TOP = [
     (['study_resource = StudyResource.from_name(study_name)', 'study_id = study_resource.study_id', 'owner_id = study_resource.owner_id'], None),
 ]
 FINISH = ['output_op.done = True', 'self.datastore.update_suggestion_operation(output_op)', 'return output_op']
-ERR = ['output_op.error.CopyFrom(status_pb2.Status(code=code_pb2.Code.INTERNAL, message=str(e)))']
+ERR = ['output_op.error.CopyFrom(status_pb2.Status(code=code_pb2.Code.INTERNAL, message=_error_text(e)))']
 BODY = [
     (['study = self.datastore.load_study(request.parent)'], 'ULoadStudy'),
     (['active_op_filter_fn = lambda op: not op.done',
@@ -79,7 +79,7 @@ BODY = [
     (['try:\n'
       '    with self._study_name_to_lock[study_name]:\n'
       '        self.datastore.update_metadata(study_name, svz.metadata_util.make_key_value_list(suggest_decision.metadata.on_study), svz.metadata_util.trial_metadata_to_update_list(suggest_decision.metadata.on_trials))\n'
-      'except KeyError as e:\n'
+      'except (KeyError, ValueError) as e:\n'
       '    ' + ERR[0] + '\n'
       "    logging.exception('Failed to write metadata update to datastore: %s', suggest_decision.metadata)\n"
       '    ' + '\n    '.join(FINISH)], 'UUpdateMdOrFinishWithError'),
